@@ -13,6 +13,7 @@ import torch
 from .. import bm_machine as bmm
 from .. import explore as ex
 from .. import bm_invariants as inv
+from .. import seams
 from ..core import Check, pmap, main
 
 KINDS = ()
@@ -36,6 +37,15 @@ def fresh_answer(cfg, entropy, via, a, b):
 
 
 def visitor(rp, history, answers, out, opts):
+    try:
+        _visitor(rp, history, answers, out, opts)
+    except (seams.WorkBudgetExceeded, RecursionError, AttributeError, ZeroDivisionError, KeyError, IndexError,
+            TypeError, RuntimeError, ValueError, AssertionError) as e:
+        # crashes of the object are C07's subject; here they only end the comparison for this state
+        out.count('comparisons_aborted_by_exception')
+
+
+def _visitor(rp, history, answers, out, opts):
     cfg = rp.cfg
     # (1) twin object, same entropy, same sequence (plain objects: no seams needed in real mode)
     twin = bmm.Built(cfg, rp.entropy, *rp.given)
@@ -103,6 +113,11 @@ def configs(tier):
     out.append((bmm.cfg_make(wrapper='tree', size=(2, 2), tol=0.01), True))
     out.append((bmm.cfg_make(wrapper='tree', size=(2, 2), tol=0.), True))  # default tol=1e-6
     out.append((bmm.cfg_make(wrapper='tree', size=(2, 2), tol=0.01, via='r'), True))
+    for levy, cache in itertools.product(['none', 'foster'], [1, 45]):
+        out.append((bmm.cfg_make(size=(2, 2), levy=levy, cache_size=cache, t0=-1., t1=1.), False))
+        out.append((bmm.cfg_make(size=(2, 2), levy=levy, cache_size=cache, tol=0.1, halfway=True, t0=-1., t1=1.), True))
+    out.append((bmm.cfg_make(wrapper='tree', size=(2, 2), tol=0.01, t0=-1., t1=1.), True))
+    out.append((bmm.cfg_make(wrapper='path', size=(2, 2), cache_size=None), False))
     return out
 
 
@@ -122,7 +137,8 @@ def run(tier, seed):
             grid = [0., 0.13, 0.25, 0.5, 0.77, 1.0]
         else:
             grid = bmm.G4
-        ops = bmm.grid_ops(grid)
+        grid = bmm.shift_grid(grid, cfg['t0'], cfg['t1'])
+        ops = bmm.grid_ops(grid, point_eval=(cfg['wrapper'] != 'interval' or cfg['t0'] != 0.) and cfg['via'] == 'd')
         if dyadic:
             ops = ops + bmm.edge_ops(grid[:3], cfg['tol'])
         units += ex.bfs_units(cfg, entropy, ops, 2, opts=dict(dyadic=dyadic, final=ops), **common)
@@ -149,6 +165,8 @@ def run(tier, seed):
             units += ex.dev_units(cfg, entropy, N, D, nchunks=8 if D else 1,
                                   opts=dict(dyadic=dyadic, final=bmm.grid_ops([0., 0.125, 0.5, 1.0], zero=False),
                                             entropy_check=False), **common)
+    ex.selfcheck_determinism(entropy)
+    chk.count('determinism_selfcheck_passed')
     chk.count('work_units', len(units))
     units.sort(key=lambda u: -(u.get('N', 0) * len(u.get('devsets', []))))
     for part in pmap(ex.run_unit, units):
